@@ -41,7 +41,7 @@ func (*c10) Rule() string {
 func (k *c10) Setup(c *core.Ctx) (int, error) {
 	k.perCase = 100
 	k.cliEach = c.N(1, 2)
-	return c.N(200, 10000), nil
+	return c.N(600, 12000), nil
 }
 
 func (*c10) Finish(c *core.Ctx) {
